@@ -231,6 +231,8 @@ def execute(case: dict, scratch: str) -> dict:
             for t in ts:
                 want, verdict = expected_init(sim, want, target_rel(t), patterns, scratch)
                 verdicts.append(verdict)
+                if verdict.startswith("raises"):
+                    break  # run_edit aborts at the first target whose rendering fails
             real = {"op": "edit", "paths": ts, "sessions": [{"edits": []}]}
             o = sim.run(real)
             rec.proc(real, None, o, sim)
